@@ -293,12 +293,37 @@ def normalise_order(ops):
 # --- running the real code ------------------------------------------------------------------------
 
 
+def cmp_option(setting, kind):
+    """compare_type / compare_server_default setting -> the option value.  True / False, or
+    {"callable": [[table, column, verdict], ...]}: a user callable that answers `verdict` (True / False) for the
+    listed columns and None ("use the default comparison") for every other column."""
+    if not isinstance(setting, dict):
+        return setting
+    table = {(t, c): v for t, c, v in setting["callable"]}
+    if kind == "type":
+        def compare_type(context, inspected_column, metadata_column, inspected_type, metadata_type):
+            return table.get((metadata_column.table.name, metadata_column.name))
+
+        return compare_type
+
+    def compare_server_default(context, inspected_column, metadata_column, inspected_default, metadata_default, rendered_metadata_default):
+        return table.get((metadata_column.table.name, metadata_column.name))
+
+    return compare_server_default
+
+
+def cfg_json(ct, cd):
+    """the settings as the Lean driver takes them: on/off flags + the callables' verdicts as data"""
+    return {"ct": bool(ct), "cd": bool(cd),
+            "ctOver": ct["callable"] if isinstance(ct, dict) else [], "cdOver": cd["callable"] if isinstance(cd, dict) else []}
+
+
 def configure(conn, md, compare_type=True, compare_server_default=True, batch=True):
     return MigrationContext.configure(
         conn,
         opts={
-            "compare_type": compare_type,
-            "compare_server_default": compare_server_default,
+            "compare_type": cmp_option(compare_type, "type"),
+            "compare_server_default": cmp_option(compare_server_default, "default"),
             "render_as_batch": batch,
             "target_metadata": md,
         },
